@@ -65,7 +65,9 @@ type PFCPConn struct {
 
 	metrics.InstrumentPFCP
 
-	hbReset     chan struct{}
+	hbReset chan struct{}
+	// hbMu guards hbCtxCancel, which the heartbeat goroutine sets and Shutdown reads
+	hbMu        sync.Mutex
 	hbCtxCancel context.CancelFunc
 
 	pendingReqs sync.Map
@@ -73,6 +75,7 @@ type PFCPConn struct {
 
 func (pConn *PFCPConn) startHeartBeatMonitor() {
 	// Stop HeartBeat routine if already running
+	pConn.hbMu.Lock()
 	if pConn.hbCtxCancel != nil {
 		pConn.hbCtxCancel()
 		pConn.hbCtxCancel = nil
@@ -80,6 +83,7 @@ func (pConn *PFCPConn) startHeartBeatMonitor() {
 
 	hbCtx, hbCancel := context.WithCancel(pConn.ctx)
 	pConn.hbCtxCancel = hbCancel
+	pConn.hbMu.Unlock()
 
 	logger.PfcpLog.With("interval", pConn.upf.hbInterval).Infoln("starting Heartbeat timer")
 
@@ -253,10 +257,12 @@ func (pConn *PFCPConn) doShutdown() {
 	close(pConn.shutdown)
 	verifPoint("conn.shutdown.closed", pConn.RemoteAddr().String())
 
+	pConn.hbMu.Lock()
 	if pConn.hbCtxCancel != nil {
 		pConn.hbCtxCancel()
 		pConn.hbCtxCancel = nil
 	}
+	pConn.hbMu.Unlock()
 
 	// Cleanup all sessions in this conn
 	for _, sess := range pConn.store.GetAllSessions() {
